@@ -526,12 +526,23 @@ def _probes(model, rep):
     class X:
         skv_isarray = True
 
+        def __init__(self, npts):
+            self.npts = npts
+
         def skv_getattr(self, name):
             if name == "shape":
-                return (2, NP)
+                return (2, self.npts)
             raise Unsupported("x." + name)
 
         def skv_getitem(self, ix):
+            if isinstance(ix, tuple) and len(ix) == 2 and isinstance(
+                    ix[1], slice) and ix[1] != slice(None):
+                lo, hi = ix[1].start or 0, ix[1].stop
+                if isinstance(lo, int) and isinstance(hi, int):
+                    # a block of points: its own extent
+                    n = min(hi, getattr(self.npts, "value", hi)) - lo
+                    return X(SymInt(f"npts[{lo}:{hi}]", n))
+                raise Unsupported("symbolic slice of the points")
             return self
 
         def skv_iter(self):
@@ -554,24 +565,35 @@ def _probes(model, rep):
             return CP
         if name == "numpy.arange":
             n = Poly.coerce(args[0])
-            if n == CP * NP:
-                return L([("row", CP * NP)], "arange")
+            if n == CP * cur["np"]:
+                return L([("row", n)], "arange")
             return NotImplemented
         if name == "numpy.tile":
             a, n = args
             if isinstance(a, Cells):
-                return L([("comp", Poly.coerce(n)), ("pt", NP)], "cells")
+                return L([("comp", Poly.coerce(n)), ("pt", cur["np"])],
+                         "cells")
             if isinstance(a, L):
                 return L([("rep", Poly.coerce(n))] + a.dims, a.what)
         if name.endswith("coo_matrix"):
+            cap.setdefault("all", []).append((args, kwargs, cur["np"]))
             cap["coo"] = (args, kwargs)
-            return "COO"
+            return ("COO", len(cap["all"]) - 1)
+        if name.endswith("sparse.vstack") or name.endswith(".vstack"):
+            seq = list(args[0])
+            if seq and all(isinstance(x, tuple) and x and x[0] == "COO"
+                           for x in seq):
+                return ("VSTACK", [x[1] for x in seq])
+            return NotImplemented
         return NotImplemented
+    cur = {"np": NP}
 
     def gbasis(a, k, n):
-        return (L([("comp", CP), ("pt", NP), ("one", Poly.const(1))],
-                  f"gbasis[{a[2]}]"),)
-    finder = PyFunc(lambda a, k, n: PyFunc(lambda a2, k2, n2: cells))
+        return (L([("comp", CP), ("pt", cur["np"]),
+                   ("one", Poly.const(1))], f"gbasis[{a[2]}]"),)
+    def find(a2, k2, n2):
+        return cells
+    finder = PyFunc(lambda a, k, n: PyFunc(find))
     obj = Obj(model.cls("skfem.assembly.basis.cell_basis", "CellBasis"), {
         "mesh": Obj(None, {"element_finder": finder}),
         "mapping": Obj(None, {"invF": PyFunc(lambda a, k, n: "PTS")}),
@@ -586,9 +608,13 @@ def _probes(model, rep):
     try:
         # int(np.prod(...)) -> comp symbol
         it.overrides = {}
-        r = it.call(fn, [X()], {}, self_obj=obj)
+        NP = SymInt("npts", 3)
+        cur["np"] = NP
+        r = it.call(fn, [X(NP)], {}, self_obj=obj)
     except (Unsupported, Raised) as e:
         raise AnalysisError(f"CellBasis.probes: {e}")
+    if not (isinstance(r, tuple) and r and r[0] == "COO"):
+        raise AnalysisError(f"CellBasis.probes returns {r!r}")
     if "coo" not in cap:
         raise AnalysisError("CellBasis.probes: coo_matrix not built")
     (data_idx,), kw = cap["coo"][0][:1], cap["coo"][1]
@@ -613,6 +639,51 @@ def _probes(model, rep):
        and Poly.coerce(sh[0]) == CP * NP and Poly.coerce(sh[1]) == Poly.sym("N"),
        "probes:shape", "matrix shape (comp*npts, N)", path,
        "CellBasis.probes", f"matrix shape is {sh}", line)
+    # a large point set (more points than any block size a memory-saving
+    # rewrite might choose): the matrix must still be ONE (comp, pt) row
+    # layout over all points
+    cap.clear()
+    BIG = SymInt("npts", 250000)
+
+    class ProbeObj(Obj):
+        pass
+    orig_call = None
+    seen_np = []
+
+    def hook2(interp, name, args, kwargs, node):
+        return hook(interp, name, args, kwargs, node)
+    it2 = Interp(model, call_hook=hook2)
+    # every (recursive) entry into probes announces the extent of its x
+    base_call = it2.call
+
+    def call2(f, args, kwargs=None, self_obj=None):
+        if f is fn and args and isinstance(args[0], X):
+            prev = cur["np"]
+            cur["np"] = args[0].npts
+            try:
+                return base_call(f, args, kwargs, self_obj=self_obj)
+            finally:
+                cur["np"] = prev
+        return base_call(f, args, kwargs, self_obj=self_obj)
+    it2.call = call2
+    try:
+        r2 = it2.call(fn, [X(BIG)], {}, self_obj=obj)
+    except (Unsupported, Raised) as e:
+        raise AnalysisError(f"CellBasis.probes (large point set): {e}")
+    if isinstance(r2, tuple) and r2 and r2[0] == "COO":
+        rep.ok(R3, "probes:large-point-set", "one matrix in the (comp, pt) "
+               "row layout also for 250000 points")
+    elif isinstance(r2, tuple) and r2 and r2[0] == "VSTACK":
+        rep.fail(R3, path, "CellBasis.probes", "probes:large-point-set",
+                 f"for a large point set the matrix is a vertical stack of "
+                 f"{len(r2[1])} per-block matrices: rows run (block, "
+                 f"component, point in block) instead of (component, "
+                 f"point) - for vector- and tensor-valued bases probes(x) "
+                 f"@ y and the interpolator mix up components as soon as "
+                 f"the number of points exceeds the block size", line)
+    else:
+        raise AnalysisError(f"CellBasis.probes (large point set) returns "
+                            f"{r2!r}")
     fi = model.func("skfem.assembly.basis.cell_basis",
                     "CellBasis.interpolator")
     # symbolic run: probes(x) @ y has one row per (component, point) in
